@@ -131,7 +131,20 @@ func hostileSkipCases(c *Ctx, n int, seedBase int64) []json.RawMessage {
 	rng := rand.New(rand.NewSource(c.Seed*998244353 + seedBase))
 	add := func(cs SkipCase) { out = append(out, mustJSON(cs)) }
 	bound := []int{0x00, 0x01, 0x7f, 0x80, 0xff, 0x0b, 0x0c, 0x0d, 0x0f, 0x10}
-	sizes := []string{"7fffffff", "7ffffffc", "7ffffffd", "80000000", "ffffffff", "00100001", "000fffff", "40000000"}
+	sizes := []string{"7fffffff", "7ffffffc", "7ffffffd", "80000000", "ffffffff", "fffffffe", "fffffffc", "fffffff8", "fffffff7", "00100001", "000fffff", "40000000"}
+	// every size field (count, string lengths) of a value x every hostile size; small negatives matter where a
+	// skipper adds a fixed size to a declared length before checking the sign
+	sizeSweep := func(s *SegBuf, t int, note string) {
+		for _, p := range s.sizeAt {
+			for _, hx := range sizes {
+				var v uint32
+				fmt.Sscanf(hx, "%x", &v)
+				m := append([]byte(nil), s.b...)
+				m[p], m[p+1], m[p+2], m[p+3] = byte(v>>24), byte(v>>16), byte(v>>8), byte(v)
+				add(SkipCase{T: t, Hex: hexOf(&SegBuf{b: m}), Note: note})
+			}
+		}
+	}
 	for i := 0; i < n; i++ {
 		t := allTypes[rng.Intn(len(allTypes))]
 		base := &GenRef{Kind: "value", Seed: rng.Int63(), Depth: 1 + rng.Intn(4), Budget: 2 + rng.Intn(14), Trail: rng.Intn(2)}
@@ -183,6 +196,10 @@ func hostileSkipCases(c *Ctx, n int, seedBase int64) []json.RawMessage {
 				for k := 0; k < len(s.b); k += step {
 					add(SkipCase{T: 13, Hex: hexOf(&SegBuf{b: s.b[:k]}), Note: fmt.Sprintf("combo-cut map<%d,%d>", kt, vt)})
 				}
+				if cnt == 1 || c.Thorough() {
+					s.b = append(s.b, 1, 2, 3, 4, 5, 6, 7, 8, 9) // bytes behind the value: a shortened reading must find something to consume
+					sizeSweep(s, 13, fmt.Sprintf("combo-size map<%d,%d>", kt, vt))
+				}
 			}
 		}
 	}
@@ -194,6 +211,8 @@ func hostileSkipCases(c *Ctx, n int, seedBase int64) []json.RawMessage {
 				for k := 0; k < len(s.b); k++ {
 					add(SkipCase{T: int(ct), Hex: hexOf(&SegBuf{b: s.b[:k]}), Note: fmt.Sprintf("combo-cut list<%d>", et)})
 				}
+				s.b = append(s.b, 1, 2, 3, 4, 5, 6, 7, 8, 9)
+				sizeSweep(s, int(ct), fmt.Sprintf("combo-size list<%d>", et))
 			}
 		}
 	}
@@ -209,6 +228,7 @@ func hostileSkipCases(c *Ctx, n int, seedBase int64) []json.RawMessage {
 		for k := 0; k < len(s.b); k++ {
 			add(SkipCase{T: 12, Hex: hexOf(&SegBuf{b: s.b[:k]}), Note: fmt.Sprintf("combo-cut struct{%d}", ft)})
 		}
+		sizeSweep(s, 12, fmt.Sprintf("combo-size struct{%d}", ft))
 	}
 	// nesting depths 1..70 for struct/list/set/map (key and value side)
 	for _, kind := range []string{"struct", "list", "set", "mapval", "mapkey"} {
